@@ -562,6 +562,8 @@ pub fn check(prop: &str, tier: Tier) -> i32 {
     }
 
     let mut col = std::mem::take(&mut *shared.results.lock().unwrap());
+    // order-independent summary of the sampled run digests: equal across worker counts and processes
+    let sample_digest = col.digests.iter().fold(0xA0D17u64, |h, (i, d)| crate::prng::mix(crate::prng::mix(h, *i), *d));
     col.violations.sort_by_key(|(i, _)| *i);
 
     // triage: one finding per distinct signature
@@ -663,6 +665,7 @@ pub fn check(prop: &str, tier: Tier) -> i32 {
             "real_components": ["peppi (built from the repository's working tree)", "arrow2 0.17", "tar 0.4", "serde_json", "xxhash-rust", "byteorder", "encoding_rs", "lz4 / zstd (C libraries via arrow2)"],
             "stub_components": ["recorder (reference model + workload)", "disk / pipe (SimStream, SimSink)", "live pipe scheduler", "process supervisor + watchdog", "allocator budget (1 GiB single request)"],
             "determinism_audit": {"rechecked": if early_stop { 0 } else { audited }, "mismatches": col.harness_errors.iter().filter(|e| e.starts_with("determinism audit")).count()},
+            "sampled_run_digest": format!("{:016x}", sample_digest),
             "worker_restarts": col.worker_restarts,
             "stopped_early_on_violations": early_stop,
             "known_finding_hits": col.known_counts,
@@ -684,6 +687,7 @@ pub fn check(prop: &str, tier: Tier) -> i32 {
         return 2;
     }
 
+    println!("sampled-run-digest={:016x} (every {}th run index; identical for any worker count)", sample_digest, AUDIT_STRIDE);
     println!(
         "runs={} wall={:.1}s runs/h={} nontrivial-shapes={} states={} interleavings={} audit={} restarts={}",
         agg.runs,
